@@ -354,8 +354,8 @@ func (e *Enc) applyItems(items []frameItem) {
 
 func (e *Enc) havocAll() {
 	for _, n := range e.heapOrder {
-		if n == "$alloc" || n == "$held" || strings.HasPrefix(n, "$defer") {
-			continue
+		if n == "$alloc" || n == "$held" || strings.HasPrefix(n, "$defer") || strings.HasPrefix(n, "$g$") {
+			continue // allocation counter handled below; lock state and function-level ghosts are not code-visible
 		}
 		e.cur.h[n] = e.fresh(n+"_havoc", e.heapSort[n])
 	}
